@@ -1,3 +1,4 @@
 SPECIFICATION Spec
-CONSTANTS C = {1, 2} MaxG = 3 MaxLoads = 3 RegAtomic = TRUE
-INVARIANTS AccountedEqualsLive FollowsLast
+CONSTANTS C = {1, 2} MaxG = 3 MaxLoads = 2 RegAtomic = TRUE RelAtomic = TRUE
+INVARIANTS AccountedEqualsLive FollowsLast LiveCachesManaged
+VIEW View
